@@ -1,7 +1,8 @@
 """C06 - absent is not invalid: defaults never mask bad values."""
 from vlib import *
 import defs as D, cmdline_sig
-from cmdline_check import run_cmdline_property
+from cmdline_check import run_cmdline_property, merge_cov
+import linegen
 
 
 def families(tier):
@@ -59,6 +60,22 @@ def run(v):
     big = D.val_family(SEED + 1060, 42, budget=10**9)
     cov = run_cmdline_property(v, families(v.tier), "MC_CmdLine_design.cfg", signature=sig, enrich=enrich,
                                driver={"defs": big, "n": 15000 if v.tier == "quick" else 300000, "maxlen": 10, "mutate": 0.9})
+    # invalid values inside choices and adjacent groups (GroupLine engine): the run fails, whatever the wrapper
+    q = v.tier == "quick"
+    gfam = D.alt_family(SEED + 62, 12 if q else 60, maxlen=3 if q else 4, budget=3000 if q else 40000) + \
+        D.adj_family(SEED + 63, 9 if q else 45, maxlen=4 if q else 5, budget=3000 if q else 40000) + D.group_family(SEED + 1, 3, 2500)[:8]
+    for d in gfam:
+        d["alpha"]["words"] = ["1", "x"]
+        d["alpha"]["eqvals"] = ["1", "x"]
+        D.galpha_trim(d, 3000 if q else 40000)
+        if len(d["alpha"]["words"]) == 1:       # keep the invalid value in the alphabet
+            d["alpha"]["words"] = ["x"] if d["id"][-1] in "02468" else ["1"]
+            d["alpha"]["eqvals"] = list(d["alpha"]["words"])
+    gcov = run_cmdline_property(v, gfam, None, replay_cfg="MC_GroupLine_replay.cfg", module="MC_GroupLine",
+                                signature=cmdline_sig.signature, trace_module="GroupLineTrace", name="C06g",
+                                driver={"defs": D.alt_family(SEED + 1062, 20, budget=10**9) + D.adj_family(SEED + 1063, 12, budget=10**9),
+                                        "n": 8000 if q else 150000, "gen": lambda rnd, d: [("line", linegen.group_line(rnd, d, 0.8))]})
+    cov = merge_cov(cov, gcov, "groupline")
     cov["rule"] = ("valued arguments (u32 conversion, guard) under one/opt/many/some/fallback/fallback_with/last at top level, "
                    "with positionals, inside subcommands; all lines up to maxlen over values {valid, guard-failing, unconvertible}; "
                    "message text required to carry the conversion/guard text when the repaired line is accepted")
